@@ -47,6 +47,10 @@ TIES = {
                           "lexing.LexString"]},
     "C10": {"area": "Caco", "refine": "CodeRefineBuild", "cands": "CodeCandsBuild",
             "functions": ["caco3.sameFileStat"]},
+    "C13": {"area": "Sni", "refine": "CodeRefineWire", "cands": "CodeCandsWire",
+            "functions": ["sniproxy.decoder.read", "sniproxy.decoder.u8", "sniproxy.decoder.u64",
+                          "sniproxy.decoder.bytes", "sniproxy.decoder.str", "sniproxy.decoder.end",
+                          "sniproxy.decoder.hasErr/Err/count/overread/tailError/rest (translated)"]},
     "C14": {"area": "Sni", "refine": "CodeRefineHello", "cands": "CodeCandsHello",
             "functions": ["sniproxy.TLSHelloConn.HelloInfo (record-length arithmetic up to recLen)"]},
     "C17": {"area": "Arch", "refine": "CodeRefine", "cands": "CodeCands",
